@@ -35,6 +35,38 @@ class Fuel(Exception):
     pass
 
 
+class NotVerbatim(Exception):
+    """a code block of the re-written program is not the text of source statements"""
+
+
+def canon(text):
+    return "".join(text.split()).lower()
+
+
+def cb_map(stmts):
+    """canonical text of every source statement -> the statement"""
+    m = {}
+    for s in walk_stmts(stmts):
+        m.setdefault(canon("".join(ps([s], ""))), s)
+    return m
+
+
+def resolve_cb(text, cmap):
+    """the source statements whose text (whitespace / case aside) is the code-block text, or None"""
+    c = canon(text)
+    out = []
+    keys = sorted(cmap, key=len, reverse=True)
+    while c:
+        for k in keys:
+            if k and c.startswith(k):
+                out.append(cmap[k])
+                c = c[len(k):]
+                break
+        else:
+            return None
+    return out
+
+
 # ------------------------------------------------------------------------------ printing
 def pe(e):
     k = e[0]
@@ -264,7 +296,7 @@ class Machine:
         self.procs = {p["name"]: p for p in (procs or ())}
         self.fuel = fuel
         self.maxabs = 0
-        self.out = []          # values printed by ("print", ..) -- unused by the generator
+        self.cbmap = None      # canonical text -> source statements, to give code blocks their meaning
 
     # -- cells
     def chk(self, a, ix):
@@ -306,6 +338,10 @@ class Machine:
         if k == "bin":
             return self.binop(e[1], self.ev(e[2]), self.ev(e[3]))
         if k == "intr":
+            if e[1] in ("ILbound", "IUbound", "ISize"):      # form produced by the serialiser
+                if len(e[2]) != 2 or e[2][0][0] != "var":
+                    raise Invalid("inquiry")
+                return self.ev(("inq", e[1], e[2][0][1], self.ev(e[2][1]), False))
             return self.intr(e[1], [self.ev(x) for x in e[2]])
         if k == "inq":
             bs = self.bnds.get(e[2])
@@ -414,6 +450,8 @@ class Machine:
         if k == "bin":
             return self.conform([self.shape(e[2]), self.shape(e[3])])
         if k == "intr":
+            if e[1] in ("ILbound", "IUbound", "ISize"):
+                return None
             return self.conform([self.shape(x) for x in e[2]])
         return None
 
@@ -452,7 +490,7 @@ class Machine:
             return -a if e[1] == "Neg" else (1 if a == 0 else 0)
         if k == "bin":
             return self.binop(e[1], self.elem(e[2], pos), self.elem(e[3], pos))
-        if k == "intr":
+        if k == "intr" and e[1] not in ("ILbound", "IUbound", "ISize"):
             return self.intr(e[1], [self.elem(x, pos) for x in e[2]])
         return self.ev(e)
 
@@ -508,6 +546,8 @@ class Machine:
                 return "X"
             elif k == "cycle":
                 return "C"
+            elif k == "return":
+                return "R"
             elif k == "select":
                 c = self.run(self.select(st))
                 if c != "N":
@@ -521,7 +561,13 @@ class Machine:
             elif k == "call":
                 self.call(st[1], st[2], want_result=False)
             elif k == "cb":
-                pass
+                if self.cbmap is not None:
+                    src = resolve_cb(st[1], self.cbmap)
+                    if src is None:
+                        raise NotVerbatim(st[1])
+                    c = self.run([x for x in src if x[0] != "cb"])
+                    if c != "N":
+                        return c
             else:
                 raise ValueError(st)
         return "N"
@@ -660,13 +706,16 @@ def positions(sh):
     return itertools.product(*[range(n) for n in sh])
 
 
-def evaluate(stmts, vals, bnds, procs=None):
-    """-> ("ok", vals, maxabs) | ("invalid", why) | ("fuel",)"""
+def evaluate(stmts, vals, bnds, procs=None, cbmap=None):
+    """-> ("ok", vals, maxabs) | ("invalid", why) | ("notverbatim", text) | ("fuel",)"""
     m = Machine(vals, bnds, procs)
+    m.cbmap = cbmap
     try:
         m.run(stmts)
     except Invalid as e:
         return ("invalid", str(e))
+    except NotVerbatim as e:
+        return ("notverbatim", str(e))
     except Fuel:
         return ("fuel",)
     return ("ok", m.vals, m.maxabs)
